@@ -225,17 +225,18 @@ TRIVIA = ['', ' ', '\n', ' \\\n ', ' # c\n', '\n\n']
 BRACKETS = [('call', 'x = f(', ')', 'a', 'b'), ('array', 'x = [', ']', 'a', 'b'), ('dict', 'x = {', '}', "'k' : a", "'l' : b"), ('method', 'x = o.m(', ')', 'a', 'b'), ('kwarg', 'x = f(', ')', 'a', 'k : b')]
 
 
-def ob_trivia(bi, full):
-    """legal trivia - blanks, line breaks, a line CONTINUATION (backslash newline), a comment, a blank line - in every slot of a two-element argument list,
+def ob_trivia(bi, slots, full_cfg):
+    """legal trivia - blanks, line breaks, a line CONTINUATION (backslash newline), a comment, a blank line - in the slots of a two-element argument list,
     array, dictionary, method call and keyword-argument list: after the opening bracket, before and after the comma, before the closing bracket"""
     def h():
         name, op, cl, a, b = BRACKETS[bi]
-        k = len(TRIVIA) if full else len(TRIVIA) - 1
-        t0 = TRIVIA[choose(k, 'after-open')]; t1 = TRIVIA[choose(k, 'before-comma')] if full else ''
+        k = len(TRIVIA) if slots == 4 else len(TRIVIA) - 1
+        t0 = TRIVIA[choose(k, 'after-open')] if slots >= 3 else ''
+        t1 = TRIVIA[choose(k, 'before-comma')] if slots == 4 else ''
         t2 = TRIVIA[choose(k, 'after-comma')]; t3 = TRIVIA[choose(k, 'before-close')]
         tc = choose(2, 'trailing_comma') == 1
         text = op + t0 + a + t1 + ',' + t2 + b + (',' if tc else '') + t3 + cl + '\ny = 2\n'
-        run_checks(text, narrow=not full)
+        run_checks(text, narrow=not full_cfg)
     return h
 
 
@@ -309,8 +310,12 @@ def obligations(tier):
         out.append(Obligation('shapes[%s]' % fname, ob_shapes(fname, 3 if (fname == 'files' or not q) else 2), dict(function=fname, arguments='2-3 of {plain, f-string, triple-quoted, f-string with @0@, nested array}', layout='one line | one per line',
                               trailing_comma='both', comment='after any argument or none', configuration='max_line_length, sort_files, simplify_string_literals, no_single_comma_function symbolic; the rest default'), labels=('done',), max_paths=5000000, classify=classify))
     for bi, br in enumerate(BRACKETS):
-        out.append(Obligation('trivia[%s]' % br[0], ob_trivia(bi, not q), dict(construct=br[1] + '<T0>' + br[3] + ('<T1>' if not q else '') + ',<T2>' + br[4] + '[,]<T3>' + br[2],
-                              trivia='none | blank | line break | continuation | comment' + ('' if q else ' | blank line'), configuration='narrow (see shapes)' if q else 'fully symbolic'), labels=('done',), optional_labels=('source-rejected',), max_paths=5000000, classify=classify))
+        slots = 3 if q else 4
+        out.append(Obligation('trivia[%s]' % br[0], ob_trivia(bi, slots, False), dict(construct=br[1] + '<T0>' + br[3] + ('<T1>' if not q else '') + ',<T2>' + br[4] + '[,]<T3>' + br[2],
+                              trivia='none | blank | line break | continuation | comment' + ('' if q else ' | blank line'), configuration='narrow (see shapes)'), labels=('done',), optional_labels=('source-rejected',), max_paths=5000000, classify=classify))
+        if not q:
+            out.append(Obligation('trivia-config[%s]' % br[0], ob_trivia(bi, 2, True), dict(construct=br[1] + br[3] + ',<T2>' + br[4] + '[,]<T3>' + br[2],
+                                  trivia='none | blank | line break | continuation | comment', configuration='fully symbolic'), labels=('done',), optional_labels=('source-rejected',), max_paths=5000000, classify=classify))
     for n in ((2, 3) if q else (2, 3, 4)):
         out.append(Obligation('atoms[%d]' % n, ob_atoms(n), dict(atoms=n, alphabet=' '.join(ATOMS), kinds="'..' f'..' '''..''' f'''..'''", configuration='narrow (see shapes)'), labels=('done',), optional_labels=('source-rejected',), max_paths=5000000, classify=classify))
     for k in range(len(TEMPLATES)):
